@@ -20,7 +20,7 @@ for p in props:
         "evidence_file": "/verif/evidence/%s.json" % pid,
         "replay_cmd_template": "bin/vcheck --replay {path}",
         "engine": "kani+verus",
-        "level_claimed": {"category": "proof", "text": o.get("level_text", ""), "design_ref": o.get("design_ref", "DESIGN.md section 5, " + pid)},
+        "level_claimed": {"category": o.get("level_category", "proof"), "text": o.get("level_text", ""), "design_ref": o.get("design_ref", "DESIGN.md section 5, " + pid)},
         "level_note": o.get("level_note", ""),
         "technique": o.get("technique", "contract-based deductive verification: Kani/CBMC full-domain contracts on the real functions, Verus on mechanically extracted functions and lemmas"),
     })
